@@ -127,3 +127,42 @@ claim("C13",
       "while awaiting Finished declares the fault) and that the default table ignores checksum failures. That late data yields an identical file is not decided.",
       "trusted: as C10",
       "DESIGN.md section 2 C13")
+claim("C07",
+      "typestate, provenance (origin-term) and ordering rules over the PDU-construction, PduConfig-store, read and progress events of the source handler's abstract transition system",
+      "Decides structural necessary conditions of the stream property: one PduConfig object for every PDU, stored only by transaction-start code; every header-determining field "
+      "stored before the segment length is derived; at most one progressing File Data PDU per call; the progressing builder reads (progress, len) with len in {file size, "
+      "file size - progress, segment length}, emits exactly what it read at offset progress and advances progress by len; emission typestate of Metadata / File Data / EOF; field "
+      "provenance of Metadata and EOF. That encoded PDUs parse and respect the maximum packet length is the library encoders' business and is not decided.",
+      "trusted: as C10; get_max_file_seg_len_for_max_packet_len_and_pdu_cfg (spacepackets) derives a length that fits",
+      "DESIGN.md section 2 C07")
+claim("C08",
+      "taint-style validation rule and tiling-idiom recognition on the NAK servicing functions (syntax tree); store/typestate rules over NAK edges and RETRANSMITTING exits of the source ATS",
+      "Decides that both ends of every segment request are compared with each other and with the progress before anything is re-sent (and nothing retransmitted is built on an edge "
+      "that rejects the NAK), that the chunking loop is one of three recognised tiling idioms over exactly [start, end) with chunks bounded by the segment length, that serving a NAK "
+      "stores neither progress, file size nor EOF condition, saves the interrupted step and the next call restores exactly that step, that (0,0) goes through the metadata builder, "
+      "and that a retransmitted PDU carries what was read at its own offset. Byte equality with the file is the filestore's read semantics.",
+      "trusted: as C10",
+      "DESIGN.md section 2 C08")
+claim("C02",
+      "product reachability search over the abstract transition systems (node x collected PDU/indication bits) for every nominal scenario; backward reachability of idle",
+      "Decides necessary conditions only: for 16 scenarios ({file, metadata-only} x {unacknowledged, with closure, acknowledged, acknowledged with closure} x both handlers) the "
+      "nominal fault-free trace - expected PDUs, exactly the successful Transaction-Finished indication, no fault callback, no exception, back to idle - is a path of the ATS, and "
+      "idle is reachable from every reachable abstract state. Because the ATS over-approximates the handlers, a missing path or a trap is a definite defect; the presence of the path "
+      "does not prove completion for every size, width or pacing.",
+      "trusted: as C10",
+      "DESIGN.md section 2 C02")
+claim("C03",
+      "acceptance matrix (step x retransmitted PDU kind) read from the abstract transition systems",
+      "Recovery under bounded faults is a liveness property of two communicating machines and is NOT decided. Decided is one structural necessary condition: which step accepts "
+      "which retransmitted PDU - re-sent EOF acknowledged in every destination step after the first EOF, valid NAK served in the three source steps, Metadata / File Data consumed "
+      "in the two deferred waits, Finished accepted while the EOF is unacknowledged. On the pinned tree the EOF cells fail (recorded: one lost ACK(EOF) is unrecoverable).",
+      "trusted: as C10; the surrounding entity acknowledges EOFs of closed transactions as documented",
+      "DESIGN.md section 2 C03")
+claim("C06",
+      "origin-term and typestate rules over every NAK-construction event of the destination ATS; bounded-write idiom check of the deferred builder and one-sided-comparison rule on the EOF handler (syntax tree)",
+      "The exactness of the requested byte set over arrival histories is NOT decided (it needs an inductive invariant over tracker, offsets and stored bytes). Decided clauses: (0,0) "
+      "only while metadata is missing; deferred batching appends every tracked range, flushes exactly at the capacity derived from the maximum packet length and flushes the "
+      "remainder; deferred requests are the tracker's items unmodified with scope (0, EOF size), immediate requests are (last end, offset) within (0, offset+len); nothing missing "
+      "means no NAK and completion; both orderings of progress vs EOF size are handled (tail gap / size fault).",
+      "trusted: as C10, C18 for the tracker's content",
+      "DESIGN.md section 2 C06")
